@@ -6,3 +6,4 @@ import liesel  # noqa: F401  (installs its logger; we then silence it)
 
 logging.getLogger("liesel").setLevel(logging.ERROR)
 warnings.filterwarnings("ignore")
+logging.getLogger("arviz").setLevel(logging.ERROR)
